@@ -58,7 +58,7 @@ type c02LBCase struct {
 	S int       `json:"s"` // server index
 	P []c02Step `json:"p"` // H S W P, and C (block kind only)
 	X int       `json:"x,omitempty"`
-	// EC: the judged request is an upload with "Expect: 100-continue" whose 2 KB body the
+	// EC: the judged request is an upload with "Expect: 100-continue" whose body (MaxBytes long) the
 	// client holds back until the server says 100 Continue; no handler reads the body, so
 	// the server never says it and the response must arrive without the body (server 1 only)
 	EC bool `json:"ec,omitempty"`
@@ -373,7 +373,7 @@ func c02LBRun(c c02LBCase) (v kit.Verdict) {
 		q.expect = c.EC
 		bodyLen := 3
 		if c.EC {
-			bodyLen = 2048
+			bodyLen = int(cf.MB) // the largest upload MaxBytes lets through
 			cls["expect-100-continue"] = true
 			v.NonTrivial = true
 		}
@@ -500,7 +500,7 @@ func c02LBRun(c c02LBCase) (v kit.Verdict) {
 			q.expect = c.EC
 			bodyLen := 3
 			if c.EC {
-				bodyLen = 2048
+				bodyLen = int(cf.MB) // the largest upload MaxBytes lets through
 				cls["expect-100-continue"] = true
 			}
 			r := c02LBDo(port, route, q, bodyLen)
